@@ -191,7 +191,9 @@ func (d *deciderA) check(res *engine.Result, c cell, verbose bool) (observed str
 	}
 	res.Outcome(fmt.Sprintf("decided-by=%s injectRequired=%s webhook=%s", stage, verdict(d1), h1))
 	if precedenceMatters(c) {
-		res.NontrivialCase(c.String())
+		k := c
+		k.History = "" // the same cell under another process history is not another non-trivial case
+		res.NontrivialCase(k.String())
 	}
 	observed = fmt.Sprintf("injectRequired=%s webhook=%s", verdict(d1), h1)
 	if verbose {
